@@ -325,6 +325,9 @@ def fstring(draw, int_names, list_names):
         conv = draw(st.sampled_from(['', '', '!r', ':>4', ':03d', '!s']))
         parts.append('{' + ex + conv + '}')
     parts.append(draw(FSTR_TEXT))
+    if draw(st.integers(0, 3)) == 0:
+        # escape sequences: the text is the content of a python f-string literal in every spelling
+        parts.insert(draw(st.integers(0, len(parts) - 1)), draw(st.sampled_from(['\\t', '\\\\', '\\x41', '\\u00e9', '\\n', 'C:\\\\d'])))
     body = 'T' + ''.join(parts)     # starts with a letter so that every spelling is a plain yaml scalar
     if draw(st.integers(0, 3)) == 0:
         body += " it's" if quote == '"' else ' say "x"'
